@@ -82,6 +82,7 @@ static int spec_escape_exact(const char *url, int flags, const char *out)
 #define BMAX (3 * N + 1)   /* bound on a buffer left behind by an earlier call */
 #endif
 
+#ifndef CV_NATIVE   /* everything below is verifier-only; the native replay includes only the spec functions above */
 /* Contracts are encoded harness-style (assume requires; call the REAL function; assert ensures): --dfcc enforcement
  * of a function that allocates a symbolic-size block does not finish (DESIGN 2, N-i).
  *
@@ -161,6 +162,17 @@ void h_escape_exact(void)
     __CPROVER_assert(!(r[0] == '%' && r[1] == '4' && (flags & RFC1738_ESCAPE_NOPERCENT)), "reach: raw percent kept under NOPERCENT");
     __CPROVER_assert(!(rfc1738_esc_bufsize > 3 * strlen(url) + 1), "reach: an older, larger buffer was reused");
 #endif
+}
+#endif
+
+/* ---------- the invariant "tables hold the RFC 1738 character lists" is established by the real initialisers ----------
+ * (no loop-contract / dfcc pass runs for this target, so statics keep the initial values of the real file) */
+#if defined(T_TABLES_INIT)
+void h_tables_init(void)
+{
+    __CPROVER_assert(sizeof(rfc1738_unsafe_chars) == 14 && sizeof(rfc1738_reserved_chars) == 7, "init: table sizes");
+    __CPROVER_assert(tables_ok(), "init: tables are initialised to the RFC 1738 unsafe/reserved character lists");
+    __CPROVER_assert(rfc1738_esc_buf == NULL && rfc1738_esc_bufsize == 0, "init: static result buffer starts empty");
 }
 #endif
 
@@ -250,3 +262,4 @@ void h_unit_lemma(void)
 #endif
 }
 #endif
+#endif /* CV_NATIVE */
